@@ -1424,12 +1424,208 @@ func c09JsStages(c *Ctx) error {
 			fail(cs, "diff", "the writer model (model.c09.js.emit) does not reproduce the output from its tokens", fmt.Sprintf("at byte %d: impl %s model %s", k, h.Q(trunc(cs.out[lo:], 80)), h.Q(trunc(b[lo:], 80))), "")
 		}
 	}
+	st.End()
+	if err := c09JsStringStage(c, node, openSig); err != nil {
+		return err
+	}
 	for _, k := range known {
 		if k.Status != "open" {
 			continue
 		}
 		obs, seen := observed[k.ID]
 		c.R.AddKnown(k.ID, seen && obs != "", k.What, obs)
+	}
+	return nil
+}
+
+// ---------- string literals: value, quoting, embedding ----------
+
+func c09JsGenLiteral(r *h.RNG) string {
+	q := []string{"\"", "'", "`"}[r.Intn(3)]
+	var b strings.Builder
+	b.WriteString(q)
+	n := r.Intn(7)
+	for i := 0; i < n; i++ {
+		var it string
+		switch r.Intn(10) {
+		case 0, 1:
+			it = []string{"a", " ", "b", "é", "€", "0", "7", "9", "x", "u", "n", "script", "SCRIPT>", "s", "c"}[r.Intn(15)]
+		case 2:
+			it = []string{"\"", "'", "`", "$", "{", "}", "<", "/", "!", "-", "--", ">", "]]>", "${"}[r.Intn(14)]
+		case 3:
+			it = []string{`\n`, `\t`, `\b`, `\v`, `\f`, `\r`, `\\`, `\'`, `\"`, "\\`", `\0`}[r.Intn(11)]
+		case 4:
+			it = []string{`\x41`, `\x3c`, `\x3C`, `\x2f`, `\x2F`, `\x00`, `\x0a`, `\x0d`, `\x22`, `\x27`, `\x60`, `\x24`, `\x5c`, `\x7b`, `\xe9`, `\x21`, `\x2d`, `\x73`, `\x7f`, `\x80`}[r.Intn(20)]
+		case 5:
+			it = []string{`\u0041`, `\u003c`, `\u002f`, `\u2028`, `\u2029`, `\u000a`, `\u000d`, `\u0000`, `\u0022`, `\u0027`, `\u0060`, `\u0024`, `\u005c`, `\u00e9`, `\u{41}`, `\u{3c}`, `\u{2f}`, `\u{1F600}`, `\u{0}`, `\u{000a}`, `\uD83D\uDE00`, `\uD800`, `\uDC00`, `\u{10FFFF}`, `\u0021`, `\u002d`}[r.Intn(26)]
+		case 6:
+			if q != "`" {
+				it = []string{`\1`, `\7`, `\12`, `\101`, `\74`, `\57`, `\377`, `\400`, `\08`, `\8`, `\9`, `\00`, `\000`, `\0000`, `\42`, `\47`, `\140`, `\134`, `\41`, `\55`}[r.Intn(20)]
+			} else {
+				it = `\0`
+			}
+		case 7:
+			it = []string{"\\\n", "\\\r\n", "\\\r", "\\\u2028"}[r.Intn(4)]
+		case 8:
+			it = []string{`\a`, `\s`, `\/`, `\!`, `\-`, `\$`, `\{`, `\<`, `\>`, `\é`, `\c`, `\i`, `\p`}[r.Intn(13)]
+		default:
+			it = []string{"</script>", "<\\/script", "<!--", "<\\!--", "</scr", "ipt>", "<", "!--", "/script", "<\\x2fscript", "</\\script>", "-->"}[r.Intn(12)]
+		}
+		if q == "`" {
+			it = strings.ReplaceAll(it, "${", "$\\{")
+		}
+		if it == q {
+			it = "\\" + it
+		}
+		if q != "`" && (it == "\n" || it == "\r") {
+			it = " "
+		}
+		b.WriteString(it)
+	}
+	b.WriteString(q)
+	return b.String()
+}
+
+func c09JsWTF8(hexUnits string) []byte {
+	var units []uint16
+	for i := 0; i+4 <= len(hexUnits); i += 4 {
+		var v uint16
+		fmt.Sscanf(hexUnits[i:i+4], "%04x", &v)
+		units = append(units, v)
+	}
+	var out []byte
+	enc := func(n int) {
+		switch {
+		case n < 0x80:
+			out = append(out, byte(n))
+		case n < 0x800:
+			out = append(out, byte(0xC0+n/64), byte(0x80+n%64))
+		case n < 0x10000:
+			out = append(out, byte(0xE0+n/4096), byte(0x80+n/64%64), byte(0x80+n%64))
+		default:
+			out = append(out, byte(0xF0+n/262144), byte(0x80+n/4096%64), byte(0x80+n/64%64), byte(0x80+n%64))
+		}
+	}
+	for i := 0; i < len(units); i++ {
+		u := int(units[i])
+		if 0xD800 <= u && u < 0xDC00 && i+1 < len(units) && 0xDC00 <= int(units[i+1]) && int(units[i+1]) < 0xE000 {
+			enc(0x10000 + (u-0xD800)*1024 + (int(units[i+1]) - 0xDC00))
+			i++
+			continue
+		}
+		enc(u)
+	}
+	return out
+}
+
+func c09JsStringStage(c *Ctx, node *c09JsNode, openSig map[string]string) error {
+	st := c.R.StartStage("c09-js-strings", "generated string literals and templates without substitutions (all escape forms, quotes, line continuations, legacy octal, `</script`, `<!--`, `${`) as `x=LIT` through the real js.Minifier (Version 0 / 2015+): the output must lex (spec.c09.js.lex) to x = LIT' with LIT' one string/template token whose value (spec.c09.js.strval, ECMA-262 SV/TV) equals the value of LIT — cross-checked with V8's evaluation of both literals — and LIT' must not contain `</script` nor, unless LIT does, `<!--`; non-trivial = V8 accepts the input and the literal changed")
+	type sc struct {
+		lit, out string
+		cfg      string
+	}
+	var cases []sc
+	n := c.N(4000, 200000)
+	for k := 0; k < n; k++ {
+		r := c.Rng.Fork()
+		lit := c09JsGenLiteral(r)
+		o := &minjs.Minifier{Version: []int{0, 5, 2015, 2022}[r.Intn(4)]}
+		out, err, crash := c09JsMinify(o, []byte("x="+lit))
+		if crash != "" {
+			c.R.Add(h.Finding{Stage: st.Name, Kind: "crash", What: crash, Input: h.Q([]byte(lit))})
+			continue
+		}
+		if err != nil {
+			st.Count(lit, false)
+			st.Tag("rejected-by-minifier")
+			continue
+		}
+		cases = append(cases, sc{lit, string(out), fmt.Sprintf("Version:%d", o.Version)})
+	}
+	var lines []string
+	for _, cs := range cases {
+		lines = append(lines, "spec.c09.js.lex "+h.HexS(cs.out))
+	}
+	lexed, err := h.Eval(lines)
+	if err != nil {
+		return err
+	}
+	lines = lines[:0]
+	type pend struct {
+		i   int
+		tok string
+	}
+	var pends []pend
+	for i, cs := range cases {
+		toks, msg := c09JsToksOfLean(lexed[i])
+		if toks == nil || len(toks) != 3 || toks[0].Text != "x" || toks[1].Text != "=" || (toks[2].K != 's' && toks[2].K != 't') {
+			c.R.Add(h.Finding{Stage: st.Name, Kind: "fail", What: "the output of `x=LIT` does not lex to x = one-literal", Input: h.Q([]byte("x=" + cs.lit)), Config: cs.cfg, Impl: h.Q([]byte(cs.out)) + " " + msg})
+			continue
+		}
+		pends = append(pends, pend{i, toks[2].Text})
+		lines = append(lines, "spec.c09.js.strval "+h.HexS(cs.lit), "spec.c09.js.strval "+h.HexS(toks[2].Text))
+	}
+	vals, err := h.Eval(lines)
+	if err != nil {
+		return err
+	}
+	for j, p := range pends {
+		cs := cases[p.i]
+		res, err := node.ask(map[string]any{"id": j, "strs": []string{cs.lit, p.tok}})
+		if err != nil {
+			return err
+		}
+		if len(res.Vals) != 2 || res.Vals[0] == nil {
+			st.Count(cs.lit, false)
+			st.Tag("input-rejected-by-v8")
+			continue
+		}
+		st.Count(cs.lit+" "+cs.cfg, cs.lit != p.tok)
+		st.Tag("out-quote=" + p.tok[:1])
+		report := func(kind, what, detail, sig string) {
+			if _, ok := openSig[sig]; ok && sig != "" {
+				c.R.ExcludedKnown++
+				st.Tag("known=" + sig)
+				return
+			}
+			c.R.Add(h.Finding{Stage: st.Name, Kind: kind, What: what, Input: h.Q([]byte("x=" + cs.lit)), Hex: h.HexS("x=" + cs.lit), Config: cs.cfg, Impl: h.Q([]byte(cs.out)) + " " + detail})
+		}
+		if res.Vals[1] == nil {
+			report("fail", "V8 cannot evaluate the printed literal", "", "")
+			continue
+		}
+		if *res.Vals[0] != *res.Vals[1] {
+			report("fail", "the printed literal has a different value (V8)", *res.Vals[0]+" vs "+*res.Vals[1], "")
+			continue
+		}
+		vin, ok1, m1 := h.DecodeReply(vals[2*j])
+		vout, ok2, m2 := h.DecodeReply(vals[2*j+1])
+		if !ok1 || !ok2 {
+			report("fail", "the literal is not well formed for the specification decoder (spec.c09.js.strval) although V8 evaluates it", m1+" "+m2, "")
+			continue
+		}
+		if !bytes.Equal(vin, vout) {
+			report("fail", "the printed literal has a different value (spec.c09.js.strval)", h.Q(vin)+" vs "+h.Q(vout), "")
+			continue
+		}
+		if w := c09JsWTF8(*res.Vals[0]); !bytes.Equal(w, vin) {
+			report("diff", "spec.c09.js.strval disagrees with V8 on the value of the input literal", h.Q(vin)+" vs "+h.Q(w), "")
+			continue
+		}
+		if c09JsContainsFold([]byte(p.tok), "</script") >= 0 {
+			report("fail", "the printed literal contains `</script`", "", "embed-script-string")
+			continue
+		}
+		if strings.Contains(p.tok, "<!--") && !strings.Contains(cs.lit, "<!--") {
+			report("fail", "the printed literal contains `<!--` although the input literal does not", "", "embed-comment-open")
+			continue
+		}
+		if strings.ContainsAny(cs.lit, "\\") {
+			st.Tag("hazard=escapes")
+		}
+		if cs.lit[0] != p.tok[0] {
+			st.Tag("hazard=requoted")
+		}
 	}
 	st.End()
 	return nil
